@@ -250,7 +250,10 @@ def check_disaggregate(run, ir, fk, ck, start_serial, n, nvar, miss, method):
 _AGGVEC = {"sum": lambda n: [1.0] * n, "mean": lambda n: [1.0 / n] * n, "first": lambda n: [1.0] + [0.0] * (n - 1), "last": lambda n: [0.0] * (n - 1) + [1.0]}
 
 
-def _arip_run(ir, low_k, high_k, nlow, aggregation, target_pos, values=None, lifted=True):
+RATE_ENDS = (1.0, 1.331)      # rate form: first and last low-frequency values are concrete, so that rho (and the KKT matrix) is a number
+
+
+def _arip_run(ir, low_k, high_k, nlow, aggregation, target_pos, values=None, lifted=True, form="diff"):
     """returns (x symbols dict, target symbols dict, high cells list, contract list)"""
     from irispie.series import arip as ar, _conversions as cv
     start = _period(ir, low_k, 2020 * FREQ[low_k])
@@ -261,6 +264,9 @@ def _arip_run(ir, low_k, high_k, nlow, aggregation, target_pos, values=None, lif
     hstart = _period(ir, high_k, 2020 * FREQ[high_k])
     tmiss = tuple(i for i in range(n_high) if i != target_pos)
     if not lifted:
+        if form == "rate":
+            values = dict(values or {})
+            values["y0v0"], values[f"y{nlow - 1}v0"] = RATE_ENDS
         x = float_series(ir, start, nlow, 1, (), "y", values)
         if target_pos is not None:
             target = float_series(ir, hstart, n_high, 1, tmiss, "t", values)
@@ -276,7 +282,7 @@ def _arip_run(ir, low_k, high_k, nlow, aggregation, target_pos, values=None, lif
             contract.append(S.const(prod[idx]).t == S.const(Co[idx]).t)
         return z
     if not lifted:
-        h = ir.disaggregate(x, _freq(ir, high_k), method="arip", model=("diff", aggregation), target=target)
+        h = ir.disaggregate(x, _freq(ir, high_k), method="arip", model=(form, aggregation), target=target)
         return x, target, h, None
     la = npproxy.SubProxy(np.linalg, {"solve": solve_stub})
     proxy = npproxy.Proxy(linalg=la)
@@ -284,17 +290,20 @@ def _arip_run(ir, low_k, high_k, nlow, aggregation, target_pos, values=None, lif
     conv = lambda diff, f, t: diff * (float(f) / float(t))          # convert_diff without its float() coercion
     with npproxy.installed(proxy, *mods, extra=[(cv, "convert_diff", conv)]), S.Path() as path:
         x, syms = tagged(ir, start, nlow, 1, (), "y", values=values)
+        if form == "rate":
+            x.data[0, 0], x.data[nlow - 1, 0] = RATE_ENDS
+            syms.pop("y0v0", None); syms.pop(f"y{nlow - 1}v0", None)
         if target_pos is not None:
             target, tsyms = tagged(ir, hstart, n_high, 1, tmiss, "t", values=values)
-        h = ir.disaggregate(x, _freq(ir, high_k), method="arip", model=("diff", aggregation), target=target)
+        h = ir.disaggregate(x, _freq(ir, high_k), method="arip", model=(form, aggregation), target=target)
     return syms, tsyms, h, contract + [path.condition()]
 
 
-def check_arip(run, ir, low_k, high_k, nlow, aggregation, target_pos):
-    key = f"arip:{low_k}->{high_k}:nlow={nlow}:diff/{aggregation}:target={target_pos}"
-    case = dict(kind="arip", low=low_k, high=high_k, nlow=nlow, aggregation=aggregation, target_pos=target_pos)
-    finding = f"arip:{aggregation}"
-    syms, tsyms, h, contract = _arip_run(ir, low_k, high_k, nlow, aggregation, target_pos)
+def check_arip(run, ir, low_k, high_k, nlow, aggregation, target_pos, form="diff"):
+    key = f"arip:{low_k}->{high_k}:nlow={nlow}:{form}/{aggregation}:target={target_pos}"
+    case = dict(kind="arip", low=low_k, high=high_k, nlow=nlow, aggregation=aggregation, target_pos=target_pos, form=form)
+    finding = f"arip:{aggregation}" if form == "diff" else f"arip:rate:{aggregation}"
+    syms, tsyms, h, contract = _arip_run(ir, low_k, high_k, nlow, aggregation, target_pos, form=form)
     nw = FREQ[high_k] // FREQ[low_k]
     n = nlow * nw
     hc = cellmap(h)
@@ -303,7 +312,7 @@ def check_arip(run, ir, low_k, high_k, nlow, aggregation, target_pos):
     if any(v is None for v in xs):
         run.counterexample(key, finding, "arip output has missing cells", dict(case, values={}))
         return
-    ys = [syms[f"y{i}v0"][2] for i in range(nlow)]
+    ys = [syms[f"y{i}v0"][2] if f"y{i}v0" in syms else S.const(S.float_fraction(RATE_ENDS[0 if i == 0 else 1])) for i in range(nlow)]
     vec = _AGGVEC[aggregation](nw)
     A = np.zeros((nlow, n))
     for i in range(nlow):
@@ -322,7 +331,16 @@ def check_arip(run, ir, low_k, high_k, nlow, aggregation, target_pos):
     # optimality of the documented criterion sum_t (x_t - x_{t-1} - c)^2: gradient orthogonal to every feasible direction
     c = (ys[-1] - ys[0]) / (nlow - 1) * (FREQ[low_k] / FREQ[high_k]) if nlow > 1 else S.const(0)
     K = np.zeros((n - 1, n))
-    for i in range(n - 1):
+    if form == "rate":
+        # documented rate model: x_t = rho x_{t-1} + eps_t, eps_t ~ N(0, sigma_t^2), sigma_0 = 1, sigma_t = rho sigma_{t-1}; criterion sum_t (eps_t / sigma_t)^2;
+        # rho = average gross rate of change of the observed series converted to the high frequency
+        rho = ((RATE_ENDS[1] / RATE_ENDS[0]) ** (1.0 / (nlow - 1))) ** (FREQ[low_k] / FREQ[high_k])
+        c = S.const(0)
+        for i in range(n - 1):
+            sig = rho ** (i + 1)
+            K[i, i + 1], K[i, i] = 1.0 / sig, -rho / sig
+    else:
+      for i in range(n - 1):
         K[i, i + 1], K[i, i] = 1.0, -1.0
     G = K.T @ K
     grad = []
@@ -337,7 +355,7 @@ def check_arip(run, ir, low_k, high_k, nlow, aggregation, target_pos):
     for k, d in enumerate(null):
         claims.append((f"optimality direction {k}", sum(S.float_fraction(float(d[i])) * grad[i] for i in range(n)), S.const(0)))
     allsyms = {nm: v[2] for nm, v in list(syms.items()) + list(tsyms.items())}
-    box = [z3.And(s.t >= -1, s.t <= 1) for s in allsyms.values()]
+    box = [z3.And(s.t >= -1, s.t <= 1) for s in allsyms.values()] if form == "diff" else [z3.And(s.t >= Fraction(1, 2), s.t <= 2) for s in allsyms.values()]
     r0, _ = run.check_sat(box + contract, timeout_ms=30000)
     if r0 != "sat":
         run.unknown(key, f"reachability witness {r0}")
@@ -381,7 +399,7 @@ def main(run):
                         "calendar membership oracle: own integer arithmetic (regular: serial // factor; daily: loop-free Gregorian calendar validated against datetime)"]
     run.functions_encoded.append("series.arip.{disaggregate_arip,disaggregate_arip_data,_create_basic_system_matrices,_DiffForm,_get_first_last_observations,_create_*}")
     run.stubs += ["numpy.linalg.solve in arip -> fresh symbols z with the contract F z = C", "_conversions.convert_diff without its float() coercion"]
-    run.outside += ["geometric_mean", "arip 'rate' form (data-dependent rho makes the KKT matrix symbolic)", "weekly frequency", "min/max with missing members (unspecified)"]
+    run.outside += ["geometric_mean", "arip rate form with symbolic first/last observations (rho would make the KKT matrix symbolic; they are concrete here)", "weekly frequency", "min/max with missing members (unspecified)"]
     n_cal = calstub.validate(step=97)
     run.extra["calendar_stub_validation"] = {"ordinals_compared_with_datetime": n_cal}
     proxy = npproxy.Proxy()
@@ -425,12 +443,15 @@ def main(run):
                 for target_pos in ((None, 5) if run.tier == "quick" else (None, 1, 5)):
                     if target_pos is not None and target_pos >= nlow * (FREQ[high_k] // FREQ[low_k]):
                         continue
-                    try:
-                        check_arip(run, ir, low_k, high_k, nlow, aggregation, target_pos)
-                    except S.SymbolicBranchError as exc:
-                        run.unknown(f"arip:{low_k}->{high_k}:{nlow}:{aggregation}:{target_pos}", exc)
-                    except Exception as exc:
-                        run.error(f"arip:{low_k}->{high_k}:{nlow}:{aggregation}:{target_pos}", exc)
+                    for form in ("diff", "rate"):
+                        if form == "rate" and nlow < 3:
+                            continue
+                        try:
+                            check_arip(run, ir, low_k, high_k, nlow, aggregation, target_pos, form=form)
+                        except S.SymbolicBranchError as exc:
+                            run.unknown(f"arip:{low_k}->{high_k}:{nlow}:{form}/{aggregation}:{target_pos}", exc)
+                        except Exception as exc:
+                            run.error(f"arip:{low_k}->{high_k}:{nlow}:{form}/{aggregation}:{target_pos}", exc)
     run.extra["exhaustive"] = True
 
 
@@ -443,7 +464,12 @@ def _replay_arip(ir, case):
         vals.setdefault(f"y{i}v0", 0.5 + 0.3 * ((i * 3) % 4))
     for i in range(n):
         vals.setdefault(f"t{i}v0", 0.2)
-    x, target, h, _ = _arip_run(ir, low_k, high_k, nlow, aggregation, target_pos, values=vals, lifted=False)
+    form = case.get("form", "diff")
+    if form == "rate":
+        vals["y0v0"], vals[f"y{nlow - 1}v0"] = RATE_ENDS
+        for i in range(1, nlow - 1):
+            vals[f"y{i}v0"] = max(vals[f"y{i}v0"], 0.5)
+    x, target, h, _ = _arip_run(ir, low_k, high_k, nlow, aggregation, target_pos, values=vals, lifted=False, form=form)
     d = h.get_data().flatten()
     y = np.array([vals[f"y{i}v0"] for i in range(nlow)])
     vec = _AGGVEC[aggregation](nw)
@@ -461,6 +487,12 @@ def _replay_arip(ir, case):
     K = np.zeros((n - 1, n))
     for i in range(n - 1):
         K[i, i + 1], K[i, i] = 1.0, -1.0
+    if form == "rate":
+        rho = ((RATE_ENDS[1] / RATE_ENDS[0]) ** (1.0 / (nlow - 1))) ** (FREQ[low_k] / FREQ[high_k])
+        c = 0.0
+        for i in range(n - 1):
+            sig = rho ** (i + 1)
+            K[i, i + 1], K[i, i] = 1.0 / sig, -rho / sig
     obj = lambda v: float(np.sum((K @ v - c) ** 2))
     KK = np.block([[K.T @ K, R.T], [R, np.zeros((R.shape[0], R.shape[0]))]])
     sol = np.linalg.lstsq(KK, np.concatenate([K.T @ (c * np.ones(n - 1)), rhs]), rcond=None)[0][:n]
